@@ -139,7 +139,7 @@ def pHead : P (String × Shape) := do
 /-- outcome of one load as observed on the implementation -/
 inductive Out where
   | failed (sig : Sig) (destSame : Bool)
-  | good (y : Obj)
+  | good (rem : Stream) (y : Obj)
 
 def pOut (kind : String) (sh : Shape) : P Out := do
   let t ← P.tok
@@ -148,7 +148,7 @@ def pOut (kind : String) (sh : Shape) : P Out := do
   | "F" => pure (.failed .failbit false)
   | "t" => pure (.failed .threw true)
   | "T" => pure (.failed .threw false)
-  | "g" => do let y ← pObj kind sh; pure (.good y)
+  | "g" => do let rem ← P.tok; let y ← pObj kind sh; pure (.good (tokenize (unhex rem)) y)
   | _ => P.fail
 
 def sigName : Sig → String
@@ -165,11 +165,12 @@ def judge (v : Verdict) (comp : String) (rd : Rd Obj) (sh : Shape) (s : Stream) 
   | .failed sig same, .ok _ _ =>
       let v := v.failIf (!same) s!"{comp} dest_modified_on_failed_load {what} signal={sigName sig}"
       v.diffIf true s!"{comp} outcome {what} model=loaded impl={sigName sig}"
-  | .good y, .bad msig =>
+  | .good _ y, .bad msig =>
       let v := v.failIf (!(validObj sh y)) s!"{comp} loaded_invalid_object {what}"
       v.diffIf true s!"{comp} outcome {what} model={sigName msig} impl=loaded"
-  | .good y, .ok ym _ =>
+  | .good rem y, .ok ym mrest =>
       let v := v.failIf (!(validObj sh y)) s!"{comp} loaded_invalid_object {what}"
+      let v := v.diffIf (rem != mrest) s!"{comp} unread_rest {what} model and impl leave different input unread"
       -- a sparse-table count read through a `double` and out of `unsigned long` range is converted by undefined
       -- behaviour: the value the implementation ends up with is unspecified, no comparison
       let ub := viaDouble && comp == "MDP::SparseExperience" && what.endsWith "hugeidx2"
@@ -208,8 +209,15 @@ def rt : P String := do
       let v := v.failIf true s!"{comp} roundtrip_load_failed signal={sig}"
       return v.render
     else
+      let remHex ← P.tok
       let y ← pObj kind sh; P.eof
-      let ym := rd text
+      let trailer : Stream := ["77".toList, "@".toList, "tail".toList]
+      let ym := rd (text ++ trailer)
+      let v := match ym with
+        | .ok _ mrest => v.diffIf (tokenize (unhex remHex) != mrest) s!"{comp} unread_rest model and impl leave different input unread after the round trip"
+        | .bad _ => v
+      -- the reader must stop exactly where the written object ends
+      let v := v.failIf (tokenize (unhex remHex) != trailer) s!"{comp} roundtrip_consumed_wrong_amount"
       let v := match ym with
         | .ok ym _ => v.diffIf (!(ym == y)) s!"{comp} reader model and impl load different objects from the written text"
         | .bad e => v.diffIf true s!"{comp} reader model fails ({sigName e}) on the written text, impl loads"
@@ -238,7 +246,7 @@ def truncGo (kind : String) (sh : Shape) (comp : String) (rd : Rd Obj) (bytes : 
     let v := judge v comp rd sh s o s!"prefix={k}"
     -- a cut on a token boundary that removes at least one token must be rejected
     let v := match o with
-      | .good _ => v.failIf (isStrictPrefix s full) s!"{comp} truncated_input_accepted prefix={k}"
+      | .good _ _ => v.failIf (isStrictPrefix s full) s!"{comp} truncated_input_accepted prefix={k}"
       | _ => v
     truncGo kind sh comp rd bytes full (k + 1) fuel v
 
@@ -299,6 +307,27 @@ def corrupt : P String := do
     P.eof
     return v.render
 
+def bcorruptGo (kind : String) (sh : Shape) (comp : String) (rd : Rd Obj) (bytes : List Char) : Nat → Verdict → P Verdict
+  | 0, v => pure v
+  | fuel + 1, v => do
+    let pos ← P.nat; let c ← P.nat
+    let o ← pOut kind sh
+    let s := tokenize (bytes.set pos (Char.ofNat c))
+    bcorruptGo kind sh comp rd bytes fuel (judge v comp rd sh s o s!"byte={pos}:{c}")
+
+/-- `bcorrupt kind S A O | hex | n (pos char outcome)*n` : one byte overwritten -/
+def bcorrupt : P String := do
+  let (kind, sh) ← pHead; P.bar
+  let hex ← P.tok; P.bar
+  let n ← P.nat
+  let comp := component kind
+  match readObj viaDouble kind sh with
+  | none => P.fail
+  | some rd =>
+    let v ← bcorruptGo kind sh comp rd (unhex hex) n { tag := "bcorrupt " ++ kind }
+    P.eof
+    return v.render
+
 /-- `xload kind S' A' O' | hex | outcome` : a text written for another shape offered to a destination of shape S' A' O' -/
 def xload : P String := do
   let (kind, sh) ← pHead; P.bar
@@ -327,6 +356,7 @@ def handle (toks : List String) : String :=
   | "corrupt" :: r => (P.run corrupt r).getD "bad-op"
   | "rtcopy" :: r => (P.run rtcopy r).getD "bad-op"
   | "xload" :: r => (P.run xload r).getD "bad-op"
+  | "bcorrupt" :: r => (P.run bcorrupt r).getD "bad-op"
   | _ => "bad-op"
 
 end DrvC17
